@@ -229,8 +229,8 @@ func timesParseDuration(args ...tengo.Object) (
 
 	dur, err := time.ParseDuration(s1)
 	if err != nil {
-		ret = wrapError(err)
-		return
+		// the Go error is the result value, not a run-time error
+		return wrapError(err), nil
 	}
 
 	ret = &tengo.Int{Value: int64(dur)}
@@ -516,8 +516,8 @@ func timesDate(args ...tengo.Object) (
 		}
 		loc, err = time.LoadLocation(i8)
 		if err != nil {
-			ret = wrapError(err)
-			return
+			// the Go error is the result value, not a run-time error
+			return wrapError(err), nil
 		}
 	} else {
 		loc = time.Now().Location()
@@ -570,8 +570,8 @@ func timesParse(args ...tengo.Object) (ret tengo.Object, err error) {
 
 	parsed, err := time.Parse(s1, s2)
 	if err != nil {
-		ret = wrapError(err)
-		return
+		// the Go error is the result value, not a run-time error
+		return wrapError(err), nil
 	}
 
 	ret = &tengo.Time{Value: parsed}
@@ -1168,8 +1168,8 @@ func timesInLocation(args ...tengo.Object) (
 
 	location, err := time.LoadLocation(s2)
 	if err != nil {
-		ret = wrapError(err)
-		return
+		// the Go error is the result value, not a run-time error
+		return wrapError(err), nil
 	}
 
 	ret = &tengo.Time{Value: t1.In(location)}
